@@ -119,6 +119,43 @@ class RTHooks(Hooks):
         return NotImplemented
 
 
+class _NoInline(Hooks):
+    def inline(self, it, fi):
+        return False
+
+
+def _eval_str_cond(c: Any, t: str) -> bool:
+    """Truth of a path condition of StringType.from_value on the concrete text t.  Only predicates over the text itself are modelled; anything
+    else is an analysis error (never a verdict)."""
+    def ev(x):
+        if isinstance(x, Sym) and x.name == 'value':
+            return t
+        if isinstance(x, (str, int, bytes, bool)) or x is None:
+            return x
+        if isinstance(x, App):
+            if x.op == 'len':
+                return len(ev(x.args[0]))
+            if x.op == 'not':
+                return not ev(x.args[0])
+            if x.op.startswith('mcall:') and x.op[6:] in ('encode', 'isascii', 'isprintable', 'isalnum', 'isalpha', 'isdigit', 'isidentifier', 'isspace', 'strip', 'isupper', 'islower'):
+                recv = ev(x.args[0])
+                return getattr(recv, x.op[6:])(*[ev(a) for a in x.args[1:]])
+            if x.op in ('==', '!=', '<', '<=', '>', '>='):
+                a, b = ev(x.args[0]), ev(x.args[1])
+                return {'==': a == b, '!=': a != b, '<': a < b, '<=': a <= b, '>': a > b, '>=': a >= b}[x.op]
+            if x.op == 'isinstance':
+                return True
+            if x.op in ('call:re.fullmatch', 'call:re.match', 'call:re.search') and isinstance(x.args[0], str):
+                import re as _re
+                return getattr(_re, x.op[8:])(x.args[0], ev(x.args[1])) is not None
+            if x.op in ('call:all', 'call:any'):
+                raise AnalysisError('C11.6: character loop in StringType.from_value not modelled')
+        raise AnalysisError(f'C11.6: condition of StringType.from_value not modelled: {vrepr(x)[:80]}')
+
+    r = ev(c)
+    return bool(r)
+
+
 class LitHooks(RTHooks):
     """to_literal builds Micheline literal *classes*: X.create_type(args=[...]) of a class registered with prim=P is the node P(args)."""
 
@@ -299,6 +336,27 @@ def run(repo: Repo, chk: Check) -> None:
                    what=f'{prim} {sname}: to_literal gives {sorted(got)[:2]} where the value is written as {sorted(want)[:2]} '
                         '(APPLY captures a different value than the one on the stack)')
     chk.minimum('literal-writer shapes', nlit, 10)
+
+    # ---- 6 the validating constructor of `string` accepts every Michelson string: the reader runs it on what the writer emitted, so a
+    #        predicate that rejects an admissible character makes such a value unreadable.  Michelson strings: printable ASCII 32..126 and \n.
+    chk.set_clause('C11.6')
+    sq = TYPECLS['string']
+    fv = repo.find_method(sq, 'from_value')
+    r = Interp(repo, _NoInline(), max_depth=1).run_function(fv, [Sym('value', 'str')], {}, self_val=ClassRef(sq))
+    accept = [p for p in r if p.outcome == 'return']
+    domain = [''] + [chr(c) for c in [10] + list(range(32, 127))] + ['a\nb c"\\']
+    rejected = []
+    for t in domain:
+        verdicts = [all(_eval_str_cond(c, t) is b for c, b in p.conds) for p in accept]
+        if not any(verdicts):
+            rejected.append(t)
+    chk.ob('R-GUARD', fv.qualname, bool(accept) and not rejected, 'every Michelson string (printable ASCII and newline) passes the validating constructor', fv.loc,
+           {'accepting_paths': len(accept), 'conditions': [[(vrepr(c)[:80], b) for c, b in p.conds] for p in accept][:2], 'rejected_samples': [repr(x) for x in rejected[:5]]},
+           what=f'StringType.from_value rejects admissible strings such as {[repr(x) for x in rejected[:3]]}: a value holding them is written but cannot be read back')
+    outside = ['\u00e9', '\u2192', 'a\u00e9']
+    leak = [t for t in outside if any(all(_eval_str_cond(c, t) is b for c, b in p.conds) for p in accept)]
+    chk.ob('R-GUARD', fv.qualname, not leak, 'non-ASCII text is rejected by the validating constructor', fv.loc, {'accepted': [repr(x) for x in leak]},
+           what=f'StringType.from_value accepts non-ASCII text {leak[:2]}, which is not a Michelson string')
 
     # ---- 2 totality of rendering ---------------------------------------------------------------------------------------------
     chk.set_clause('C11.2')
